@@ -13,6 +13,7 @@ None == "none"
 \* Events: Op: op, shape (input class of the step, used in details), optional fields
 \*   okctl / oktun (connection whose control / tunnel type handshake just succeeded),
 \*   closed (connection closed by this operation), unreg (connection turned into a tunnel),
+\*   kicking (connection whose kick is being delivered while this projection is taken), kicked (its kick ended),
 \*   proj [lookup: X -> [c, cid, authd]  (GetControlConnectionByClientID; c = "none": nothing),
 \*         ilookup: the same for GetControlConnectionInterface (c = "none" only for a real nil interface),
 \*         conns:  c -> [sess, reg, tun, authd, cid, tcl, info, cidof]   (per accepted connection: GetConnection,
@@ -68,7 +69,10 @@ TrOp ==
          cc == ((ctlc \cup Opt("okctl")) \ Opt("oktun")) \cap {c \in DOMAIN p.conns : p.conns[c].reg}
          gn == gone \cup Opt("closed")
          un == unr \cup Opt("unreg")
-     IN /\ viol' = viol \cup First(Check(p, Ev.op \o ":" \o Ev.shape, cc, gn, un, regd))
+         \* kicking: the eviction of this connection is in progress (its kick command is being delivered):
+         \* "after it was evicted" begins when the operation ends (kicked: it has ended in this step)
+         rg == (regd \cup Opt("kicked")) \ Opt("kicking")
+     IN /\ viol' = viol \cup First(Check(p, Ev.op \o ":" \o Ev.shape, cc, gn, un, rg))
         /\ ctlc' = cc /\ gone' = gn /\ unr' = un
         /\ regd' = {c \in DOMAIN p.conns : p.conns[c].reg}
   /\ l' = l + 1
